@@ -1,5 +1,8 @@
 #!/bin/sh
-# Build the gosym engine offline.
+# Build the gosym engine offline (x/tools v0.50.0 from the module cache, go1.26.8 local toolchain).
 set -e
 cd "$(dirname "$0")"
-exit 0
+export PATH=/opt/veriftools/go1.26.8/bin:$PATH GOTOOLCHAIN=local GOFLAGS=-mod=mod GOPROXY=off GOSUMDB=off
+mkdir -p bin evidence/replay
+(cd engine && go build -o ../bin/gosym ./cmd/gosym)
+echo "gosym built"
